@@ -1003,6 +1003,16 @@ def c05_fault_sweep(fam):
                     st.pop("expect", None)
                 v["tags"] = list(v.get("tags", [])) + ["faults"]
                 out.append(v)
+    # a Redis server that answers the removal of the old session later than the client library waits (3.3 s of real time; the library retries): the login goes on only once the old session is gone
+    for sc in fam:
+        _, pres, kind, prefix, store = sc["id"].split("/")
+        if store == "redis" and prefix == "" and kind == "app" and pres in ("pending", "stale"):
+            v = json.loads(json.dumps(sc))
+            v["id"] = sc["id"] + "/fault/g1-slow"
+            v["steps"][preplen[pres]]["dirs"] = {"1": {"fault": "slow1:3300"}}
+            for st in v["steps"]:
+                st.pop("expect", None)
+            out.append(v)
     return out
 
 
